@@ -364,4 +364,121 @@ theorem plainVoters_valid (pr : Nat × Nat × Nat × Nat) : ∀ v ∈ plainVoter
   rcases hv with ((⟨-, rfl⟩ | ⟨-, rfl⟩) | ⟨-, rfl⟩) | ⟨-, rfl⟩ <;>
     exact ⟨h01, h01⟩
 
+/-! ### the collection loop as written is `collect` / `afterVote` -/
+
+theorem classifyAction_ne_raises (s : List Nat) : classifyAction s ≠ .raises := by
+  unfold classifyAction
+  repeat' split
+  all_goals simp
+
+theorem turn_vote (m : Member) (a : Answer) :
+    toVote (voterOfMember m (answerBehaviour a)) = (proteinToVote m a).getD ⟨.abstain, 0, m.weight⟩ := by
+  cases a with
+  | raised => rfl
+  | unusable => rfl
+  | protein s p =>
+    have hk := classifyAction_ne_raises s
+    cases p <;> simp only [answerBehaviour, voterOfMember, proteinToVote, confOfPayload, toVote, failedVote, Option.getD] <;>
+      cases h : classifyAction s <;> simp_all
+
+theorem turn_failed (m : Member) (a : Answer) :
+    (answerBehaviour a).failed = (proteinToVote m a).isNone := by
+  cases a with
+  | raised => rfl
+  | unusable => rfl
+  | protein s p =>
+    have hk := classifyAction_ne_raises s
+    cases p <;> simp [answerBehaviour, proteinToVote, confOfPayload, Behaviour.failed, hk]
+
+theorem fault_iff (m : Member) (a : Answer) : (proteinToVote m a).isNone = a.faultPoint.isSome := by
+  cases a with
+  | raised => rfl
+  | unusable => rfl
+  | protein s p => cases p <;> rfl
+
+theorem collectLoop_refines (beh : Nat → Behaviour) :
+    ∀ (c : List Member) (as : List Answer) (i : Nat), as.length = c.length →
+      (∀ j (h : j < as.length), beh (i + j) = answerBehaviour as[j]) →
+      collectLoop c as = (collect (electorateFrom beh i c), afterVoteFrom beh i c) := by
+  intro c
+  induction c with
+  | nil => intro as i h _; cases as <;> simp_all [collectLoop, electorateFrom, afterVoteFrom, collect]
+  | cons m ms ih =>
+    intro as i hlen hb
+    cases as with
+    | nil => simp at hlen
+    | cons a as =>
+      have h0 : beh i = answerBehaviour a := by
+        have := hb 0 (by simp)
+        simp only [Nat.add_zero, List.getElem_cons_zero] at this
+        exact this
+      have htail := ih as (i + 1) (by simpa using hlen) (fun j hj => by
+        have := hb (j + 1) (by simp; omega)
+        simp only [List.getElem_cons_succ] at this
+        rw [← this]; congr 1; omega)
+      have hv := turn_vote m a
+      have hf := turn_failed m a
+      unfold collectLoop
+      rw [htail]
+      simp only [electorateFrom, afterVoteFrom, collect, List.map_cons, h0]
+      cases hp : proteinToVote m a with
+      | none => rw [hp] at hv hf; simp_all
+      | some v => rw [hp] at hv hf; simp_all
+
+theorem collectLoop_fst (c : List Member) (as : List Answer) :
+    (collectLoop c as).1 = collect (answerVoters c as) := by
+  induction c generalizing as with
+  | nil => simp [collectLoop, answerVoters, collect]
+  | cons m ms ih =>
+    cases as with
+    | nil => simp [collectLoop, answerVoters, collect]
+    | cons a as =>
+      have hv := turn_vote m a
+      unfold collectLoop
+      cases hp : proteinToVote m a <;> rw [hp] at hv <;>
+        simp_all [answerVoters, collect]
+
+theorem answerVoters_length (c : List Member) (as : List Answer) (h : as.length = c.length) :
+    (answerVoters c as).length = c.length := by
+  simp [answerVoters, h]
+
+theorem collectLoop_getElem? (c : List Member) (as : List Answer) (i : Nat) (m : Member) (a : Answer)
+    (hm : c[i]? = some m) (ha : as[i]? = some a) :
+    (collectLoop c as).1[i]? = some ((proteinToVote m a).getD ⟨.abstain, 0, m.weight⟩) ∧
+    (collectLoop c as).2[i]? = some (if (proteinToVote m a).isSome then ⟨m.name, m.weight, m.rel, m.votesCast + 1, m.correct⟩ else m) := by
+  induction c generalizing as i with
+  | nil => simp at hm
+  | cons m0 ms ih =>
+    cases as with
+    | nil => simp at ha
+    | cons a0 as =>
+      cases i with
+      | zero =>
+        simp only [List.getElem?_cons_zero, Option.some.injEq] at hm ha
+        subst hm; subst ha
+        unfold collectLoop
+        cases hp : proteinToVote m0 a0 <;> simp
+      | succ i =>
+        simp only [List.getElem?_cons_succ] at hm ha
+        have := ih as i hm ha
+        unfold collectLoop
+        cases hp : proteinToVote m0 a0 <;> simpa using this
+
+theorem answerVoters_no_permit (c : List Member) (as : List Answer) (hall : ∀ a ∈ as, a.faultPoint.isSome) :
+    ∀ v ∈ answerVoters c as, (toVote v).kind ≠ .permit := by
+  induction c generalizing as with
+  | nil => simp [answerVoters]
+  | cons m ms ih =>
+    cases as with
+    | nil => simp [answerVoters]
+    | cons a as =>
+      intro v hv
+      simp only [answerVoters, List.zipWith_cons_cons, List.mem_cons] at hv
+      rcases hv with rfl | hv
+      · have hf := hall a (by simp)
+        rw [← fault_iff m a] at hf
+        rw [turn_vote]
+        cases hp : proteinToVote m a <;> simp_all
+      · exact ih as (fun a ha => hall a (by simp [ha])) v hv
+
 end Operon.Quorum
